@@ -477,7 +477,7 @@ class Parser:
                         break
                 self.expect(")")
                 return ("pts", segs, ps)
-            if len(segs) == 1 and segs[0][0].islower():
+            if len(segs) == 1 and (segs[0][0].islower() or segs[0][0] == "_"):
                 return ("pid", segs[0])
             return ("ppath", segs)
         self.err("pattern outside the translated subset")
@@ -2023,6 +2023,15 @@ def regenerate():
             text = "-- translation failed: " + str(e).replace("\n", " ") + "\n"
         h2 = hdr.replace("import Cachelito.RustLite\n", "import Cachelito.RustLite\nimport Cachelito.Generated.PureUtils\nimport Cachelito.Generated.PureEntry\nimport Cachelito.Generated.PureStats\n") if mod in ("Global", "Async", "Thread") else hdr
         write_if_changed(os.path.join(GEN_DIR, f"Pure{mod}.lean"), h2 + f"namespace {mod}\nvariable {{K V F E T : Type}} [DecidableEq K]\n\n" + text + f"\nend {mod}\nend Cachelito.Generated\n")
+    # the macros' generated wrapper (after the engines: it calls their translated functions)
+    try:
+        text, winfo = translate_wrapper()
+        info["wrapper"] = winfo
+    except Exception as e:
+        problems.append("cachelito-macros/src/lib.rs: " + (str(e) if isinstance(e, Untranslatable) else f"translator error {e!r}"))
+        text = "-- translation failed: " + str(e).replace("\n", " ") + "\n"
+    hw = hdr.replace("import Cachelito.RustLite\n", "import Cachelito.RustLite\nimport Cachelito.Generated.PureGlobal\nimport Cachelito.Generated.PureThread\n")
+    write_if_changed(os.path.join(GEN_DIR, "PureWrap.lean"), hw + "namespace Wrap\nvariable {K V F E T : Type} [DecidableEq K]\n\n" + text + "\nend Wrap\nend Cachelito.Generated\n")
     info["problems"] = problems
     return info
 
@@ -2080,10 +2089,11 @@ UTIL_FILES = [
     ("Policy", "cachelito-core/src/eviction_policy.rs", None, {}, ["is_valid", "from"]),
     ("Global", "cachelito-core/src/global_cache.rs", "RustLite.GlobalCache K V F",
      {"self.map": "map", "self.order": "deque", "self.frequency_weight": "optf64", "self.stats": "stats"},
-     ["handle_entry_limit_eviction", "insert", "increment_frequency", "get", "clear", "insert_result", "insert_with_memory"]),
+     ["handle_entry_limit_eviction", "insert", "increment_frequency", "get", "clear", "insert_result", "insert_with_memory",
+      "insert_result_with_memory"]),
     ("Thread", "cachelito-core/src/thread_local_cache.rs", "RustLite.ThreadCache K V F",
      {"self.cache": "map", "self.order": "deque", "self.frequency_weight": "optf64", "self.stats": "stats"},
-     ["move_to_end", "increment_frequency", "remove_key", "remove_key_with_order", "handle_entry_limit_eviction", "insert", "get", "insert_result", "insert_with_memory"]),
+     ["move_to_end", "increment_frequency", "remove_key", "remove_key_with_order", "handle_entry_limit_eviction", "insert", "get", "insert_result", "insert_with_memory", "insert_result_with_memory"]),
     ("Async", "cachelito-core/src/async_global_cache.rs", "RustLite.AsyncCache K V F",
      {"self.cache": "map", "self.order": "deque", "self.frequency_weight": "optf64", "self.stats": "stats"},
      ["find_min_frequency_key", "find_arc_eviction_key", "find_tlru_eviction_key", "is_already_key_inserted",
@@ -2513,7 +2523,8 @@ def translate_utils(module, skip=()):
             if "clock" in need[name]:
                 imp.append("(clock : RustLite.Clock)")
             if "size" in need[name]:
-                imp.append("(size : V → Nat)")
+                vt_ = "Except E T" if (hdr is not None and "Result<T,E>" in hdr[1].replace(" ", "")) else "V"
+                imp.append(f"(size : {vt_} → Nat)")
             if "fuel" in need[name]:
                 imp.append("(fuel : Nat)")
             if "r" in need[name]:
@@ -2528,6 +2539,219 @@ def translate_utils(module, skip=()):
             if module in ("Utils", "Entry", "Stats"):
                 EXTERNAL[name if module == "Utils" else module + "." + name] = dict(table[name], lean_name=module + "." + name)
     return "\n".join(out), info
+
+
+# ------------------------------------------------------------------------------------------------ the macros' generated wrapper
+# `#[cache]` (cachelito-macros/src/lib.rs) builds the wrapper from `quote!` templates.  The small generator functions
+# (`generate_insert_call`, `generate_cache_condition`, `generate_invalidation_check`) are EVALUATED here for each of the 16
+# configurations (max_memory present x Result return type x invalidate_on present x cache_if present); their token
+# streams are spliced into the tail of the branch template (`let __key = …; if let Some(cached) = __cache.get(&__key) {…}
+# let __result = (|| body)(); …; __result`), and the resulting Rust block is translated like any other function.
+
+class GenInterp:
+    """evaluates a generator function (`fn … -> TokenStream2`) of the macro crate on concrete arguments.
+    Values: Python bool, None / ("some", tokens) for Option<syn::Path>, token lists for token streams."""
+
+    def __init__(self, fns, fname):
+        self.fns, self.fname = fns, fname
+
+    def call(self, name, args):
+        f = self.fns.get(name)
+        if f is None:
+            raise Untranslatable(f"{self.fname}: generator function `{name}` is missing")
+        body = body_of(f)
+        env = {}
+        if len(args) != len(f["params"]):
+            raise Untranslatable(f"{self.fname}: `{name}` takes {len(f['params'])} parameters now")
+        for (pn, _), a in zip(f["params"], args):
+            env[pn] = a
+        return self.block(body, env)
+
+    def block(self, b, env):
+        env = dict(env)
+        for st in b[1]:
+            if st[0] == "let" and st[1][0] == "pid":
+                env[st[1][1]] = self.ev(st[3], env)
+            elif st[0] == "return":
+                return self.ev(st[1], env)
+            else:
+                raise Untranslatable(f"{self.fname}: statement in a generator function: {str(st)[:120]}")
+        if b[2] is None:
+            raise Untranslatable(f"{self.fname}: generator block without a value")
+        return self.ev(b[2], env)
+
+    def ev(self, e, env):
+        k = e[0]
+        if k == "paren" or k == "ref" or k == "deref":
+            return self.ev(e[1], env)
+        if k == "path" and len(e[1]) == 1:
+            if e[1][0] in env:
+                return env[e[1][0]]
+            if e[1][0] in ("true", "false"):
+                return e[1][0] == "true"
+            raise Untranslatable(f"{self.fname}: unknown variable `{e[1][0]}` in a generator function")
+        if k == "unary" and e[1] == "!":
+            return not self.ev(e[2], env)
+        if k == "if":
+            c = self.ev(e[1], env)
+            if not isinstance(c, bool):
+                raise Untranslatable(f"{self.fname}: non-boolean condition in a generator function")
+            br = e[2] if c else e[3]
+            if br is None:
+                raise Untranslatable(f"{self.fname}: `if` without `else` in a generator function")
+            return self.block(br, env) if br[0] == "block" else self.ev(br, env)
+        if k == "iflet":
+            v = self.ev(e[2], env)
+            pat = e[1]
+            if not (pat[0] == "pts" and pat[1] == ["Some"] and pat[2][0][0] == "pid"):
+                raise Untranslatable(f"{self.fname}: `if let` pattern in a generator function")
+            if v is not None:
+                env2 = dict(env); env2[pat[2][0][1]] = v[1]
+                return self.block(e[3], env2)
+            if e[4] is None:
+                raise Untranslatable(f"{self.fname}: `if let` without `else` in a generator function")
+            return self.block(e[4], env) if e[4][0] == "block" else self.ev(e[4], env)
+        if k == "call" and e[1][0] == "path":
+            return self.call(e[1][1][-1], [self.ev(a, env) for a in e[2]])
+        if k == "macro" and e[1] == "quote":
+            return self.quote(list(e[2]), env)
+        if k == "block":
+            return self.block(e, env)
+        raise Untranslatable(f"{self.fname}: expression in a generator function: {str(e)[:120]}")
+
+    def quote(self, toks, env):
+        out = []
+        i = 0
+        while i < len(toks):
+            t = toks[i]
+            if t[0] == "p" and t[1] == "#" and i + 1 < len(toks) and toks[i + 1][0] == "id":
+                name = toks[i + 1][1]
+                if name not in env:
+                    raise Untranslatable(f"{self.fname}: interpolation `#{name}` of an unknown variable")
+                v = env[name]
+                if not isinstance(v, list):
+                    raise Untranslatable(f"{self.fname}: interpolation `#{name}` of a non-token value")
+                out += v
+                i += 2
+                continue
+            out.append(t)
+            i += 1
+        return out
+
+
+def wrapper_template(fns, fname, branch_fn, cfgbits):
+    """token list of the wrapper's core for one configuration: from `let __key = …` to the end of the branch template"""
+    has_mm, is_result, has_io, has_ci = cfgbits
+    gi = GenInterp(fns, fname)
+    ident = lambda n: [("id", n, 0)]
+    io = ("some", ident("invalidate_on__")) if has_io else None
+    ci = ("some", ident("cache_if__")) if has_ci else None
+    inv_check = gi.call("generate_invalidation_check", [io])
+    cache_cond = gi.call("generate_cache_condition", [ci, has_mm, is_result])
+    f = fns.get(branch_fn)
+    if f is None:
+        raise Untranslatable(f"{fname}: `{branch_fn}` is missing")
+    body = body_of(f)
+    if not (body[2] is not None and body[2][0] == "macro" and body[2][1] == "quote"):
+        raise Untranslatable(f"{fname}: `{branch_fn}` no longer ends in a `quote!` template")
+    toks = list(body[2][2])
+    # the core starts at `let __key`
+    start = None
+    for i in range(len(toks) - 1):
+        if toks[i][1] == "let" and toks[i + 1][1] == "__key":
+            start = i
+            break
+    if start is None:
+        raise Untranslatable(f"{fname}: `{branch_fn}`: the template has no `let __key = …`")
+    # what precedes must not touch the cache through `__cache` methods other than its construction
+    pre = toks[:start]
+    for i in range(len(pre) - 2):
+        if pre[i][1] == "__cache" and pre[i + 1][1] == ".":
+            raise Untranslatable(f"{fname}: `{branch_fn}`: the template uses `__cache` before the key is computed")
+    env = {"key_expr": ident("key__"), "block": [("p", "{", 0)] + ident("body__") + [("p", "}", 0)],
+           "invalidation_check": inv_check, "cache_condition": cache_cond}
+    core = gi.quote(toks[start:], env)
+    return [("p", "{", 0)] + core + [("p", "}", 0), ("eof", "", 0)]
+
+
+class WrapperProfile(PureProfile):
+    """the wrapper body: `__cache` is the engine (`self` of the translated engine functions), `key__` the rendered key,
+    `body__` the value the function body returns if it runs, the two predicates are oracles"""
+
+    ENGINE = {"Thread": ("Thread", "RustLite.ThreadCache"), "Global": ("Global", "RustLite.GlobalCache")}
+
+    def __init__(self, module, is_result):
+        super().__init__({"__cache": "engine"}, {})
+        self.module = module
+        self.is_result = is_result
+        self.uses_float = self.uses_clock = self.uses_size = True
+
+    def mut_method(self, name, recv=None):
+        r = strip_guard(recv) if recv is not None else None
+        if r is not None and r[0] == "path" and r[1] == ["__cache"] or recv is None:
+            m = self.module
+            table = {"get": (f"{m}.get clock", True),
+                     "insert": (f"{m}.insert A clock (RustLite.headRand rs)", False),
+                     "insert_result": (f"{m}.insert_result A clock (RustLite.headRand rs)", False),
+                     "insert_with_memory": (f"{m}.insert_with_memory A clock size fuel rs", False),
+                     "insert_result_with_memory": (f"{m}.insert_result_with_memory A clock size fuel rs", False)}
+            if name in table:
+                return table[name]
+        return None
+
+    def call(self, segs, generics, args, em, env):
+        if segs == ["invalidate_on__"] and len(args) == 2:
+            return f"(invalidate_on__ {em.expr(args[0], env)} {em.expr(args[1], env)})"
+        if segs == ["cache_if__"] and len(args) == 2:
+            return f"(cache_if__ {em.expr(args[0], env)} {em.expr(args[1], env)})"
+        return None
+
+
+def translate_wrapper():
+    """Generated/PureWrap.lean: 16 configurations x {Thread, Global}"""
+    rel = "cachelito-macros/src/lib.rs"
+    path = os.path.join(REPO, rel)
+    fns = {f["name"]: f for (_, f) in parse_source(path)}
+    out = []
+    info = {"configs": []}
+    for module, branch_fn in (("Thread", "generate_thread_local_branch"), ("Global", "generate_global_branch")):
+        for bits in range(16):
+            cfgbits = (bool(bits & 8), bool(bits & 4), bool(bits & 2), bool(bits & 1))
+            toks = wrapper_template(fns, rel, branch_fn, cfgbits)
+            block = Parser(toks, rel + f" ({branch_fn} template)").parse_block()
+            prof = WrapperProfile(module, cfgbits[1])
+            em = Emitter(prof, f"{rel} ({branch_fn}, max_memory={cfgbits[0]}, result={cfgbits[1]}, invalidate_on={cfgbits[2]}, cache_if={cfgbits[3]})")
+            # the closure call `(|| { body__ })()` is the body's value
+            block = replace_body_call(block)
+            env = ["__cache", "key__", "body__"]
+            tail = block[2]
+            K = Cont(normal=lambda env2: em.fail("wrapper without a value"),
+                     ret=lambda v, env2: "(" + em.expr(v, env2) + ", __cache)",
+                     value=lambda ast, env2: "(" + em.expr(ast, env2) + ", __cache)")
+            text = seq(em, list(block[1]), env, K, "\n  ", tail=tail)
+            vt = "(Except E T)" if cfgbits[1] else "V"
+            name = f"wrap{module}_{''.join('1' if b else '0' for b in cfgbits)}"
+            out.append(f"/-- `{rel}` `{branch_fn}`: max_memory {'set' if cfgbits[0] else 'absent'}, "
+                       f"{'Result' if cfgbits[1] else 'plain'} return type, invalidate_on {'set' if cfgbits[2] else 'absent'}, "
+                       f"cache_if {'set' if cfgbits[3] else 'absent'} -/\n"
+                       f"def {name} (A : RustLite.F64 F) (clock : RustLite.Clock) (size : {vt} → Nat) (fuel : Nat) (rs : List Nat)\n"
+                       f"    (invalidate_on__ cache_if__ : K → {vt} → Bool) (__cache : {WrapperProfile.ENGINE[module][1]} K {vt} F) (key__ : K) (body__ : {vt}) :=\n  {text}\n")
+            info["configs"].append(name)
+    return "\n".join(out), info
+
+
+def replace_body_call(node):
+    """`(|| { body__ })()` -> `body__`"""
+    if isinstance(node, list):
+        return [replace_body_call(x) for x in node]
+    if not isinstance(node, tuple):
+        return node
+    if node and node[0] == "call" and node[1][0] == "paren" and node[1][1][0] == "closure" and not node[1][1][1] and not node[2]:
+        b = node[1][1][2]
+        if b[0] == "block" and not b[1] and b[2] is not None:
+            return b[2]
+        return b
+    return tuple(replace_body_call(x) for x in node)
 
 
 if __name__ == "__main__":
